@@ -121,6 +121,7 @@ def main():
     ap.add_argument("--suffix", default=None, help="only the variants whose suffix letter is in this string (e.g. efst = round 3)")
     ap.add_argument("--own", action="store_true", help="run only the check of the property the change targets")
     ap.add_argument("--jobs", type=int, default=8)
+    ap.add_argument("--checks", default=None, help="comma-separated property ids: run only these checks and merge their columns into the existing table")
     ap.add_argument("--fast", action="store_true", help="skip the (slow) C13 check for changes that do not target C13 and do not touch the type system")
     a = ap.parse_args()
     dirs = sorted(p for p in (VERIF / "seeded").iterdir() if (p / "patch.diff").exists())
@@ -129,8 +130,10 @@ def main():
     if a.suffix:
         dirs = [d for d in dirs if d.name.split("-")[-1] in a.suffix]
     allp = checks()
+    if a.checks:
+        allp = [p for p in allp if p in a.checks.split(",")]
     out = {}
-    if (a.only or a.suffix) and (VERIF / "seeded" / "RESULTS.json").exists():
+    if (a.only or a.suffix or a.checks) and (VERIF / "seeded" / "RESULTS.json").exists():
         out = json.loads((VERIF / "seeded" / "RESULTS.json").read_text())
 
     def job(d):
@@ -144,6 +147,8 @@ def main():
 
     with ThreadPoolExecutor(max_workers=a.jobs) as ex:
         for name, res in ex.map(job, dirs):
+            if a.checks and isinstance(out.get(name), dict) and "error" not in out[name] and "error" not in res:
+                res = {**out[name], **res}  # only the columns of the selected checks are replaced
             out[name] = res
             if "error" in res:
                 print(f"{name:12s} ERROR {res['error']}")
